@@ -105,7 +105,8 @@ Fixpoint replay (s : mux_st) (evs : list (event * obs)) : bool * mux_st :=
 
 (* one end: queue length, opened ids, the events in script order with what was observed *)
 (* sd_raw: this end is a bare transport end driven by the harness (malformed stream), not a Mux *)
-Record side_case := { sd_raw : bool; sd_qlen : N; sd_opened : list N; sd_events : list (event * obs) }.
+(* sd_blocked: the Mux was created WithBlockedRead and its reader is parked until the first EvUnblock of the script *)
+Record side_case := { sd_raw : bool; sd_blocked : bool; sd_qlen : N; sd_opened : list N; sd_events : list (event * obs) }.
 
 Record script_case := {
   sc_a : side_case; sc_b : side_case;
@@ -120,7 +121,7 @@ Record script_case := {
 
 Definition corr_side (sd : side_case) (rx tx : string) : bool :=
   if sd_raw sd then true else
-  let (ok, s) := replay (init_mux_cfg (unhex rx) (sd_qlen sd) (sd_opened sd)) (sd_events sd) in
+  let (ok, s) := replay (set_blocked (sd_blocked sd) (init_mux_cfg (unhex rx) (sd_qlen sd) (sd_opened sd))) (sd_events sd) in
   ok && bytes_eqb (m_tx s) (unhex tx).
 
 Definition corr_script (c : script_case) : bool :=
